@@ -21,9 +21,14 @@ def fam_core(seed, i):
     sc["clients"]["main"] = main
     w = {"send": 8, "call": 8, "ping": 5, "yield": 3, "clone": 1, "drop": 1, "stop": 0.5, "downgrade": 0.5, "upgrade": 0.5,
          "sender": 0.5, "caller": 0.5, "weak_sender": 0.3, "weak_caller": 0.3}
+    scripts = SCRIPTS_CORE
+    if rng.random() < 0.3:
+        # pings used as barriers while handlers are suspended mid-way and other clients' pings are queued
+        w = {"send": 5, "ping": 6, "call": 2, "yield": 2}
+        scripts = [[Y], [Y, Y], [Y], []]
     cnt = [0]
     for c in kinds:
-        sc["clients"][c] = Prog(rng, c, handles.get(c, {}), w, SCRIPTS_CORE, cnt).run(rng.randint(1, 7))
+        sc["clients"][c] = Prog(rng, c, handles.get(c, {}), w, scripts, cnt).run(rng.randint(1, 7))
     return sc
 
 
